@@ -113,6 +113,10 @@ func (e *env19) newHist(idx int, v vec19, seed int64) *hist19 {
 			}
 		}
 	}
+	if v.Sv == "exec_param_refused" {
+		h.values["params"] = "MK" + randID(rng, 18) // an ordinary parameter the executor's work type does not accept
+		h.secret["params"] = false
+	}
 	refused := v.Unit == "none"
 	switch {
 	case refused:
@@ -120,6 +124,12 @@ func (e *env19) newHist(idx int, v vec19, seed int64) *hist19 {
 		h.target, h.reach = e.m1.ID, true
 		if idx%3 == 0 {
 			h.target, h.reach = "ghost19", false
+		}
+	case strings.HasPrefix(v.Sv, "exec_"):
+		// the other node is reached on the first attempt and refuses the submission
+		h.target, h.reach = e.m1.ID, true
+		if v.TLS {
+			h.target = e.m2.ID
 		}
 	case v.Sv != "ok" && v.Sv != "":
 		h.target = "ghost19" // the variants are about the submitting node only
@@ -196,6 +206,12 @@ func (e *env19) submit(h *hist19) {
 		f["ttl"] = []string{"10 minutes", "abc", "5", "1h30", "1d", " 1h"}[rng.Intn(6)]
 	case "tls_unknown":
 		f["tlsclient"] = "noprofile" + randID(rng, 4)
+	case "exec_unknown_type":
+		f["worktype"] = "notthere" + randID(rng, 4) // the executor has no such work type
+	case "exec_needs_signature":
+		f["worktype"] = "vonly" // verifies signatures at the executor; this submission is not signed
+	case "exec_param_refused":
+		f["params"] = h.values["params"] // rtype does not allow run-time parameters
 	}
 	var before map[string]bool
 	var err error
@@ -274,7 +290,10 @@ func (e *env19) submit(h *hist19) {
 			e.res.count("crashed_between_allocation_steps")
 		}
 	}
-	if !crashed && (err != nil || id == "") {
+	if !crashed && id != "" && err != nil && bytes.Contains(recv, []byte("ERROR")) && sv != "abort_stdin" {
+		got = "created_then_error" // allocated here, then refused by the node that was to run it
+		e.res.count("refused_by_executor")
+	} else if !crashed && (err != nil || id == "") {
 		got = "error"
 		if !bytes.Contains(recv, []byte("ERROR")) {
 			e.res.inconclusive("submit of history %d (%s) got neither a unit nor an ERROR: %v %q", h.idx, sv, err, trunc(string(recv), 200))
@@ -820,11 +839,19 @@ func cmdC19(args []string) {
 	}
 	p1, p2 := ctl.FreePort(), ctl.FreePort()
 	rtype := ctl.Item{"work-command": map[string]any{"worktype": "rtype", "command": "sh", "params": `-c "cat; echo done"`}}
+	vk, err := ctl.NewKeyPair(dir, "verify")
+	if err != nil {
+		res.inconclusive("cannot create keys: %v", err)
+
+		return
+	}
+	verif := ctl.Item{"work-verification": map[string]any{"publickey": vk.PubFile}}
+	vonly := ctl.Item{"work-command": map[string]any{"worktype": "vonly", "command": "true", "verifysignature": true}}
 	m1 := ctl.NewDaemon(*bin, filepath.Join(dir, "m1"), "c19m1", false, nil,
-		ctl.Item{"tcp-listener": map[string]any{"port": p1, "bindaddr": "127.0.0.1"}}, rtype)
+		ctl.Item{"tcp-listener": map[string]any{"port": p1, "bindaddr": "127.0.0.1"}}, rtype, verif, vonly)
 	m2 := ctl.NewDaemon(*bin, filepath.Join(dir, "m2"), "c19m2", false, map[string]any{"tls": "ts"},
 		ctl.Item{"tcp-listener": map[string]any{"port": p2, "bindaddr": "127.0.0.1"}},
-		ctl.Item{"tls-server": map[string]any{"name": "ts", "cert": pki.ServerCert, "key": pki.ServerKey}}, rtype)
+		ctl.Item{"tls-server": map[string]any{"name": "ts", "cert": pki.ServerCert, "key": pki.ServerKey}}, rtype, verif, vonly)
 	r1, err1 := ctl.NewRelay(fmt.Sprintf("127.0.0.1:%d", p1))
 	r2, err2 := ctl.NewRelay(fmt.Sprintf("127.0.0.1:%d", p2))
 	if err1 != nil || err2 != nil {
